@@ -8,6 +8,8 @@
 Nothing structural is declined (std is trusted).
   MUSTCALL  (shared with C15) a failed flush inside into_inner comes out as Err, not as a panic in Drop   (found F29)
   RETRY     ... a block write that failed is remembered and never re-sent from its first byte          (found F30)
+  RETRY     ... one way to the sink: no second, fallback way of writing the same slices on some error kind; the module
+            inspects no error kind but the one it retries on
 """
 from ..lib import *
 from ..inventory import natural_loops
